@@ -62,7 +62,7 @@ theorem trans_agree (f : Fields) (hwf : WellFormed f = true) (fuel : Nat) (hfuel
 
 section transfer
 variable (f : Fields) (hwf : WellFormed f = true) (fuel : Nat) (hfuel : csmFuel + 1 ≤ fuel) (c prev : Int)
-  (hc : -100000 ≤ c ∧ c ≤ 100000) (hp : 0 ≤ prev) (hmax : prev ≤ 9223372036854775807)
+  (hc : -100000 ≤ c ∧ c ≤ 100000) (hp : -9223372036854775808 ≤ prev) (hmax : prev ≤ 9223372036854775807)
 include hwf hfuel hc hp hmax
 
 theorem nextFireT_eq_nextFire : nextFireT goTime fuel f (fixedZone c) prev = nextFire {} f (fixedZone c) prev :=
@@ -101,6 +101,28 @@ example : DayEquiv goTime exWeekdays (csmFuel + 1) :=
 
 example : transCsmNext goTime exWeekdays leapEve (csmFuel + 1) = csmNext {} exWeekdays leapEve :=
   trans_nextTriggerTime exWeekdays (by decide) _ (Nat.le_refl _) leapEve leapEve_valid (by decide)
+
+/-- C01 / C02 / C06 of the translated state machine at a `prev` before 1970 (one day and 1 ns before the epoch) -/
+theorem exNoon_neg_trans :
+    nextFireT goTime (csmFuel + 1) exNoon (fixedZone 0) (-86400000000001) = .ok (-43200000000000) := by
+  rw [nextFireT_eq_nextFire exNoon exNoon_wf (csmFuel + 1) (Nat.le_refl _) 0 _ (by omega) (by omega) (by omega)]
+  exact exNoon_neg
+
+example : (-43200000000000 : Int) % 1000000000 = 0 ∧ (-86400000000001 : Int) < -43200000000000 ∧
+    Matches exNoon (Civil.ofSeconds (-43200000000000 / 1000000000 + 0)) :=
+  C01_sound_trans exNoon exNoon_wf (csmFuel + 1) (Nat.le_refl _) 0 (-86400000000001) (by omega) (by omega)
+    (by omega) _ exNoon_neg_trans
+
+example : ∀ u : Int, -86400000000001 < u → u < -43200000000000 → u % 1000000000 = 0 →
+    ¬ Matches exNoon (Civil.ofSeconds (u / 1000000000 + 0)) :=
+  C02_minimal_trans exNoon exNoon_wf (csmFuel + 1) (Nat.le_refl _) 0 (-86400000000001) (by omega) (by omega)
+    (by omega) _ exNoon_neg_trans
+
+example : (∃ r, nextFireT goTime (csmFuel + 1) exNoon (fixedZone 0) (-9223372036854775808) = .ok r ∧
+      -9223372036854775808 < r) ∨
+    nextFireT goTime (csmFuel + 1) exNoon (fixedZone 0) (-9223372036854775808) = .expired :=
+  C06_total_trans exNoon exNoon_wf (csmFuel + 1) (Nat.le_refl _) 0 (-9223372036854775808) (by omega) (by omega)
+    (by omega)
 
 end TransCsm
 
